@@ -9,7 +9,7 @@ CHECKS = {
          "theorems that the code-shaped models of read_unsigned_var_int / encode_unsigned_varint / zigzag kernels equal the "
          "specification on the whole uint64/int64 range; of read_bitpacked (all widths <= 24, loop invariant + ranking function), "
          "read_rle, read_rle_bit_packed_hybrid (= Spec.decodeHybrid on every well-formed run stream), read_bitpacked1, "
-         "unpack_byte_array, delta_read_bitpacked (widths 1..28) and the WHOLE delta_binary_unpack (= Spec.decodeDelta on every "
+         "unpack_byte_array, encode_bitpacked (writer side, widths 0..24), delta_read_bitpacked (widths 1..28) and the WHOLE delta_binary_unpack (= Spec.decodeDelta on every "
          "conforming stream with miniblock widths <= 28, INT32 and INT64). The models are tied to the compiled extension (rebuilt from the current "
          ".c) by an exhaustive three-way comparison over the lattice the property names; widths where the kernels are wrong are "
          "known findings with counter-example witnesses.",
